@@ -27,8 +27,47 @@ def code_block(ids, indent, want, raise_at=None, label=None, rnd=None):
     for n, k in enumerate(ids):
         shape = n % 3 if rnd is None else rnd.randrange(5)
         if raise_at == k:
-            out.append(pad + ">>> raise ValueError('stmt%d')" % k)
-            labels.append('src')
+            variant = 0 if rnd is None else rnd.randrange(6)
+            if variant == 1:
+                # the raising line is INSIDE a multi-line statement
+                out.append(pad + '>>> y%d = [1,' % k)
+                out.append(pad + "...      int('stmt%d')," % k)
+                out.append(pad + '...      3]')
+                labels += ['src', 'src', 'src']
+                code_block.target = ("int('stmt%d')" % k, 'ValueError')
+            elif variant == 2:
+                # failing code called from a doctest line (the helper is defined by the doctest itself)
+                out.append(pad + '>>> def h%d():' % k)
+                out.append(pad + "...     raise ValueError('stmt%d')" % k)
+                out.append(pad + '>>> h%d()' % k)
+                labels += ['src', 'src', 'src']
+                code_block.target = ('>>> h%d()' % k, 'ValueError')
+            elif variant == 3:
+                # a got/want mismatch: the first line of the offending want
+                out.append(pad + ">>> print('stmt%d')" % k)
+                out.append(pad + 'other%d' % k)
+                out.append(pad + 'second%d' % k)
+                labels += ['src', 'want', 'want']
+                code_block.target = ('other%d' % k, 'GotWantException')
+            elif variant == 4:
+                # a mismatch right after a statement continued with `...` lines (compiled in single mode)
+                out.append(pad + ">>> print('stmt%d' +" % k)
+                out.append(pad + "...       '')")
+                out.append(pad + 'other%d' % k)
+                labels += ['src', 'src', 'want']
+                code_block.target = ('other%d' % k, 'GotWantException')
+            elif variant == 5:
+                # the frame of the doctest goes on running (finally) after the line that raised
+                out.append(pad + '>>> try:')
+                out.append(pad + "...     raise ValueError('stmt%d')" % k)
+                out.append(pad + '... finally:')
+                out.append(pad + '...     z%d = 0' % k)
+                labels += ['src', 'src', 'src', 'src']
+                code_block.target = ("raise ValueError('stmt%d')" % k, 'ValueError')
+            else:
+                out.append(pad + ">>> raise ValueError('stmt%d')" % k)
+                labels.append('src')
+                code_block.target = ("raise ValueError('stmt%d')" % k, 'ValueError')
         elif shape == 2:
             out.append(pad + '>>> def f%d():' % k)
             out.append(pad + '...     return %d' % k)
@@ -64,6 +103,7 @@ def docstrings(tier, seed):
         n_blocks = rnd.randint(1, 4)
         style = rnd.choice(['freeform', 'google'])
         raise_at = None
+        target = None
         prev_want = False
         for b in range(n_blocks):
             # usually prose between blocks; sometimes the next block follows a want directly (at another indentation)
@@ -87,12 +127,14 @@ def docstrings(tier, seed):
                 raise_at = rnd.choice(ids)
             prev_want = rnd.random() < 0.5
             bl, bb = code_block(ids, rnd.choice([0, 4, 8]), prev_want, raise_at, label, rnd)
+            if raise_at in ids:
+                target = code_block.target
             lines.extend(bl)
             labels.extend(bb)
         t = [''] + rnd.choice(TEXT)
         lines.extend(t)
         labels.extend(['text'] * len(t))
-        yield style, lines, raise_at, labels
+        yield style, lines, (None if raise_at is None else (raise_at,) + target), labels
 
 
 def line_of(lines, needle):
@@ -161,20 +203,22 @@ def check_docstring(core, style, lines, raise_at, L):
                 got = lines[j] if 0 <= j < len(lines) else '<outside the docstring>'
                 return n, 'a part starting with %r is placed at file line %d (docstring line %d: %r)' % (want_text, ex.lineno + part.line_offset, j, got)
     if raise_at is not None:
-        target = line_of(lines, "raise ValueError('stmt%d')" % raise_at)
+        k_raise, needle, excname = raise_at
+        target = line_of(lines, needle)
         for ex in examples:
-            if ("stmt%d'" % raise_at) not in ex.docsrc:
+            if ("stmt%d'" % k_raise) not in ex.docsrc:
                 continue
             ex.mode = 'native'
             summary = ex.run(on_error='return', verbose=0)
             n += 1
             if not summary['failed']:
-                continue        # the raising statement sits under a skip label / after an earlier end: nothing to locate
-            if ex.exc_info[0].__name__ != 'ValueError':
-                continue
+                continue        # the failing statement sits under a skip label: nothing to locate
+            if ex.exc_info[0].__name__ != excname or target is None:
+                continue        # an earlier statement of the same doctest failed first (another want, ...)
             got = ex.failed_lineno()
             if got is None or got - L != target:
-                return n, 'the statement on docstring line %r failed but failed_lineno() = %r (file line of the docstring: %d)' % (target, got, L)
+                return n, 'the failure is on docstring line %r (%r) but failed_lineno() = %r (file line of the docstring: %d)' % (
+                    target, lines[target].strip(), got, L)
     return n, None
 
 
